@@ -644,11 +644,21 @@ func (e c15Engine) Run(scAny any, keep bool) core.Outcome {
 		perRun := 1
 		if childArch || sc.Arch == "outputs" {
 			perRun = 12 // runs with child processes cost milliseconds each
+			if sc.Warm {
+				perRun = 25 // and the warm-up run starts another one
+			}
 		}
 		if max := 1500 / perRun; (total+1)/stride > max {
 			stride = (total + max) / max // keep an enumerated scenario within a few seconds
 		}
+		began := time.Now()
 		for c := 1; c <= total+1; c += stride {
+			if time.Since(began) > 45*time.Second {
+				// a loaded machine: the rest of this enumeration is left to other scenarios
+				// rather than to the harness watchdog
+				out.Probe("enumerations_cut_short_by_wall_clock", 1)
+				return out
+			}
 			if f := check("step", c, 0, nil); f != nil {
 				out.Fail = f
 				red := *sc
